@@ -3,10 +3,14 @@
 From Coq Require Import List Arith Bool ZArith.
 Import ListNotations.
 From TF Require Import Model.Dispatch.
+From TF Require Model.Sched.
 
 Inductive case :=
 | T (id : Z) (pre : st) (e : ev) (post : st) (o : out)
-| H (id : Z) (total : nat) (evs : list ev) (outs : list out).
+| H (id : Z) (total : nat) (evs : list ev) (outs : list out)
+(* a call sequence on a real HybridScheduler: every call with what it returned
+   and the class counts Snapshot() reported right after it *)
+| S (id : Z) (c : Sched.cfg) (trace : list (Sched.op * Sched.out * list Z)).
 
 Definition opt_eqb {A} (f : A -> A -> bool) (a b : option A) : bool :=
   match a, b with Some x, Some y => f x y | None, None => true | _, _ => false end.
@@ -31,12 +35,42 @@ Definition out_eqb (a b : out) : bool :=
   | _, _ => false
   end.
 
-Definition case_id (c : case) : Z := match c with T id _ _ _ _ => id | H id _ _ _ => id end.
+Definition case_id (c : case) : Z := match c with T id _ _ _ _ => id | H id _ _ _ => id | S id _ _ => id end.
+
+(* The float credits are not modelled: when Next falls through to the weighted
+   pick, the model is told which file the implementation returned and checks
+   that it is one of the pending medium/large files (position in the sorted
+   pending list = the oracle index); every other call is deterministic. *)
+Fixpoint index_of (k : Z) (l : list Z) : nat :=
+  match l with [] => 0%nat | x :: r => if Z.eqb x k then 0%nat else Datatypes.S (index_of k r) end.
+
+Definition sched_guided (s : Sched.st) (o : Sched.op) (obs : Sched.out) : Sched.st * bool :=
+  match o, obs with
+  | Sched.Next now _, Sched.ONext (Some k) =>
+      let i := index_of k (map fst (Sched.pending_weighted (Sched.conf s) now (Sched.files s))) in
+      let '(s', r) := Sched.next s now i in
+      (s', opt_eqb Z.eqb r (Some k))
+  | Sched.Next now _, Sched.ONext None =>
+      let '(s', r) := Sched.next s now 0%nat in
+      (s', match r with None => true | Some _ => false end)
+  | Sched.Next _ _, Sched.OUnit => (s, false)
+  | _, Sched.OUnit => (fst (Sched.step s o), true)
+  | _, _ => (s, false)
+  end.
+
+Fixpoint sched_replay (s : Sched.st) (tr : list (Sched.op * Sched.out * list Z)) : bool :=
+  match tr with
+  | [] => true
+  | (o, obs, snap) :: r =>
+      let '(s', ok) := sched_guided s o obs in
+      ok && list_eqb Z.eqb (Sched.snapshot s') snap && sched_replay s' r
+  end.
 
 Definition check (c : case) : bool :=
   match c with
   | T _ pre e post o => let '(s', o') := step pre e in st_eqb s' post && out_eqb o' o
   | H _ n evs outs => list_eqb out_eqb (snd (run (init n) evs)) outs
+  | S _ c tr => sched_replay (Sched.init c) tr
   end.
 
 Definition mismatches (cs : list case) : list Z :=
